@@ -760,8 +760,17 @@ impl Hooks for Sim {
             }
         }
         let mut verdict = UringVerdict::Proceed;
-        if let Some(act) = self.fault_for(&mut g, me) {
+        while let Some(act) = self.fault_for(&mut g, me) {
             match act {
+                Act::Stall { steps } => {
+                    Self::count_fault(&mut g, "stall");
+                    g.threads[me].stall_until = g.step + steps;
+                    g.threads[me].site = "stalled".into();
+                    g.threads[me].status = Status::Runnable;
+                    g = self.reschedule(g, me);
+                    g.threads[me].stall_until = 0;
+                    continue;
+                }
                 Act::Crash | Act::Torn { .. } => {
                     Self::count_fault(&mut g, "crash");
                     self.die(&mut g, "crash", EXIT_CRASH, format!("crash before uring submit io {}", rec.n));
@@ -805,6 +814,7 @@ impl Hooks for Sim {
                     ));
                 }
             }
+            break;
         }
         g.threads[me].site = "UringSubmit".into();
         drop(self.reschedule(g, me));
